@@ -191,7 +191,36 @@ def h_fscale(H):
 
 
 # ----------------------------------------------------------------------------- filters
-@harness(PROPERTY, "filters", functions=["ibldsp.fourier:_freq_vector", "ibldsp.fourier:_freq_filter", "ibldsp.utils:fcn_cosine", "ibldsp.utils:_fcn_extrap"],
+def replay_filters(vals, oid):
+    """the real filter on an array of the counter-model's shape: keeps the shape, and equals filtering every line along the axis on its own"""
+    import re
+    m = re.search(r"\.(bp|lp|hp)\.(\d)d\.axis(None|-?\d)", oid)
+    if not m:
+        return {"failed": False, "note": "no native replay for this obligation"}
+    typ, nd, axis = m.group(1), int(m.group(2)), (None if m.group(3) == "None" else int(m.group(3)))
+    dims = [vals.get(f"d{q}") for q in range(nd)]
+    dims = [int(d) if isinstance(d, int) and 2 <= d <= 24 else (5, 6, 7)[q] for q, d in enumerate(dims)]
+    rng = np.random.default_rng(3)
+    bad = []
+    for shape in (tuple(dims), tuple((5, 6, 7)[:nd]), tuple((6, 6, 6)[:nd])):
+        x = rng.standard_normal(shape)
+        b = [0.05, 0.1, 0.3, 0.4] if typ == "bp" else [0.1, 0.2]
+        try:
+            y = F._freq_filter(x, 1.0, b, axis=axis, typ=typ)
+        except Exception as e:
+            bad.append({"shape": shape, "axis": axis, "raised": repr(e)[:200]})
+            continue
+        ax = nd - 1 if axis is None else axis % nd
+        if y.shape != x.shape:
+            bad.append({"shape": shape, "axis": axis, "result_shape": y.shape})
+            continue
+        want = np.apply_along_axis(lambda line: F._freq_filter(line, 1.0, b, typ=typ), ax, x)
+        if not np.allclose(y, want, atol=1e-9):
+            bad.append({"shape": shape, "axis": axis, "max_difference_to_line_by_line_filtering": float(np.max(np.abs(y - want)))})
+    return {"failed": bool(bad), "cases": bad[:3]}
+
+
+@harness(PROPERTY, "filters", replay=replay_filters, functions=["ibldsp.fourier:_freq_vector", "ibldsp.fourier:_freq_filter", "ibldsp.utils:fcn_cosine", "ibldsp.utils:_fcn_extrap"],
          clause="low-pass plus high-pass with the same corners is the identity, band-pass is their product, the cosine soft threshold is monotone from 0 to 1 between its bounds")
 def h_filters(H):
     S = H.session("freq_vector")
@@ -218,9 +247,72 @@ def h_filters(H):
     _freq_filter_cases(H, ((1, None), (2, 0), (2, 1), (3, 2), (3, 1)))
 
 
-@harness(PROPERTY, "filters_3d_axis0", functions=["ibldsp.fourier:_freq_filter"], clause="filters along axis 0 of a 3-D array (known finding F-C18-3)")
+@harness(PROPERTY, "filters_3d_axis0", replay=replay_filters, functions=["ibldsp.fourier:_freq_filter"], clause="filters along axis 0 of a 3-D array (known finding F-C18-3)")
 def h_filters3d0(H):
     _freq_filter_cases(H, ((3, 0),))
+
+
+def _uf_args(t, decl):
+    """argument tuples of the applications of the uninterpreted function `decl` inside the term t"""
+    out, seen, todo = [], set(), [t]
+    while todo:
+        x = todo.pop()
+        if x.get_id() in seen or not z3.is_app(x):
+            continue
+        seen.add(x.get_id())
+        if x.decl().eq(decl):
+            out.append([x.arg(i) for i in range(x.num_args())])
+        todo.extend(x.children())
+    return out
+
+
+def _filters_each_line_in_place(ts, log, out, ax):
+    """True iff out[j] is computed from the line of ts through j along axis `ax`, at position j[ax]: the forward transform sees ts through an axis
+    permutation sigma, the inverse transform works on the product in the same layout along the same axis, and the result is read back through the
+    inverse permutation.  Unsupported (undecided) when the data flow cannot be recognised."""
+    import itertools
+    nd = ts.ndim
+    if len(log) != 2 or log[0]["kind"] not in ("fft", "rfft") or log[1]["kind"] not in ("ifft", "irfft"):
+        raise Unsupported("cannot identify one forward and one inverse transform in _freq_filter()")
+    e1, e2 = log
+    if getattr(e1["out"], "uf", None) is None or len(e1["in_shape"]) != nd or len(e2["in_shape"]) != nd:
+        raise Unsupported("transform of an array of another rank")
+    idx = [z3.Int(f"i!{q}") for q in range(nd)]
+    xin = z3.simplify(term(e1["in"](tuple(idx))))
+    sigma = None
+    for cand in itertools.permutations(range(nd)):
+        if z3.simplify(term(ts.read(tuple(idx[cand[d]] for d in range(nd))))).eq(xin):
+            sigma = cand          # ts axis d is indexed by the transform input's index sigma[d]
+            break
+    if sigma is None:
+        raise Unsupported("the forward transform is not applied to an axis permutation of the input")
+    if sigma[ax] != e1["axis"] or e2["axis"] != e1["axis"]:
+        return False
+    # the inverse transform's input holds, at every position, the forward transform's output at the same position (times the response)
+    pin = z3.simplify(term(e2["in"](tuple(idx))))
+    apps = _uf_args(pin, e1["out"].uf)
+    if not apps:
+        raise Unsupported("the inverse transform is not applied to the forward transform's output")
+    if any(len(a) != nd or any(not a[q].eq(idx[q]) for q in range(nd)) for a in apps):
+        return False
+    y = e2["out"]
+    yuf = getattr(y, "uf", None)
+    j = [z3.Int(f"j!{q}") for q in range(nd)]
+    if out.ndim != nd:
+        return False
+    o = z3.simplify(term(out.read(tuple(j))))
+    if yuf is None:
+        raise Unsupported("inverse transform output without an index function")
+    oa = _uf_args(o, yuf)
+    if len(oa) != 1 or len(oa[0]) != nd:
+        raise Unsupported("the result is not read from the inverse transform's output")
+    tau = []
+    for a in oa[0]:
+        hit = [q for q in range(nd) if a.eq(j[q])]
+        if len(hit) != 1:
+            raise Unsupported("the result is not an axis permutation of the inverse transform's output")
+        tau.append(hit[0])           # inverse transform's index m is the result's index tau[m]
+    return all(tau[sigma[d]] == d for d in range(nd))
 
 
 def _freq_filter_cases(H, cases):
@@ -250,8 +342,10 @@ def _freq_filter_cases(H, cases):
                 ax = ndim - 1 if axis is None else axis
                 tag = f"{typ}.{ndim}d.axis{axis}"
                 it.ctx.oblige(f"freq_filter.shape.{tag}", z3.And(*[A.T(out.shape[q]) == dims[q] for q in range(ndim)]) if out.ndim == ndim else z3.BoolVal(False), "post", "filtering keeps the shape")
-                log = [e for e in it.ctx.fft_log if e["kind"] in ("fft", "ifft")]
-                it.ctx.oblige(f"freq_filter.along_axis.{tag}", z3.BoolVal(len(log) == 2 and all(e["axis"] == ax for e in log)), "post", "forward and inverse transforms run along the requested axis")
+                log = [e for e in it.ctx.fft_log if e["kind"] in ("fft", "ifft", "rfft", "irfft")]
+                it.ctx.oblige(f"freq_filter.along_axis.{tag}", z3.BoolVal(_filters_each_line_in_place(ts, log, out, ax)), "post",
+                              "every output sample comes from the forward and inverse transform of the line of the input through the same position along the requested axis "
+                              "(whatever axis shuffling the implementation does around the transforms)")
                 if typ == "bp":
                     ok = len(seen) == 2 and seen[0][0] == "hp" and seen[1][0] == "lp"
                     it.ctx.oblige(f"bp.is_hp_times_lp.{tag}", z3.And(z3.BoolVal(ok), *( [seen[0][1][0] == term(bs[0]), seen[0][1][1] == term(bs[1]), seen[1][1][0] == term(bs[2]), seen[1][1][1] == term(bs[3])] if ok else [])), "post",
